@@ -95,6 +95,7 @@ type Interp struct {
 
 	started     time.Time
 	loopBoundIn map[string]int
+	goQueue     []goTask
 	uniques     []uniqueEntry
 	freshTerms  []*smt.Term
 	stubs       map[string]Value
